@@ -57,7 +57,7 @@ func fmtMods(ms []diff.Modification) string {
 
 // {{ domdiff L R }} inside a template is diff.Diff(L, R): same modifications, same order
 func c07DomDiff(r *rand.Rand, idx int, l, rr map[string]any) Case {
-	dir := filepath.Join(os.TempDir(), "ytcheck-tmplfuncs")
+	dir := procTmp("tmplfuncs")
 	_ = os.MkdirAll(dir, 0o755)
 	lf, e1 := writeYamlDoc(dir, fmt.Sprintf("l%d.yaml", idx), l)
 	rf, e2 := writeYamlDoc(dir, fmt.Sprintf("r%d.yaml", idx), rr)
@@ -100,7 +100,7 @@ func c07DomDiff(r *rand.Rand, idx int, l, rr map[string]any) Case {
 // {{ mergeFiles (list f1 f2 ...) }} is the merge, in the order given, of the documents in those
 // files with lists appended — the full view of a document set holding them
 func c18MergeFiles(r *rand.Rand, idx int, docs []map[string]any) Case {
-	dir := filepath.Join(os.TempDir(), "ytcheck-tmplfuncs")
+	dir := procTmp("tmplfuncs")
 	_ = os.MkdirAll(dir, 0o755)
 	var files []string
 	var fail []string
